@@ -3,7 +3,7 @@ from __future__ import annotations
 
 import math
 
-LABEL_POOL = ["A", "B", 7, (1, 2), "xyz", -3, 2.5, frozenset([1]), "", 0]
+LABEL_POOL = ["A", "part7", 1007, (1, 2), "xyz", -3, 2.5, frozenset([1]), "", 0]
 
 FIXED_2Q = ["cx", "cy", "cz", "ch", "cs", "csdg", "csx", "csxdg", "ecr", "swap", "iswap", "dcx"]
 PARAM_2Q = ["rxx", "ryy", "rzz", "crx", "cry", "crz", "cp", "rzx"]
@@ -74,6 +74,24 @@ def rand_paulis(rng, n, k, letters="IIXYZ"):
     return [{"l": "".join(rng.choice(letters) for _ in range(n)), "p": 0} for _ in range(k)]
 
 
+def fresh(x):
+    """an object equal to `x` but (where CPython allows it) not identical to it: labels computed per qubit at run time are equal, not the
+    same object (small ints, one-character and empty strings are shared by the interpreter and stay identical)"""
+    if isinstance(x, bool) or x is None:
+        return x
+    if isinstance(x, int):
+        return int(str(x))
+    if isinstance(x, float):
+        return float(repr(x))
+    if isinstance(x, str):
+        return "".join(list(x))
+    if isinstance(x, tuple):
+        return tuple(list(x))
+    if isinstance(x, frozenset):
+        return frozenset(list(x))
+    return x
+
+
 def labels_from_idx(idx, pool_idx):
     pool = [LABEL_POOL[i] for i in pool_idx]
-    return [None if i is None else pool[i] for i in idx]
+    return [None if i is None else fresh(pool[i]) for i in idx]
